@@ -458,7 +458,8 @@ def _split_tuple_result(stmts: list[ast.stmt], ret: str, n: int) -> bool:
     return True
 
 
-def splice_tail_helpers(prog: Program, fn: FuncInfo, rounds: int = 2) -> tuple[FuncInfo, set[str]]:
+def splice_tail_helpers(prog: Program, fn: FuncInfo, rounds: int = 2,
+                        exclude: "frozenset[str] | set[str]" = frozenset()) -> tuple[FuncInfo, set[str]]:
     """Analysis view of `fn` in which calls `x = [await] self._helper(...)` / `return self._helper(...)`
     / `self._helper(...)` of private same-class statement helpers (also those that return from several
     if/else arms, which the engine normaliser leaves alone) are replaced by the helper's body:
@@ -485,7 +486,8 @@ def splice_tail_helpers(prog: Program, fn: FuncInfo, rounds: int = 2) -> tuple[F
                 if not isinstance(call, ast.Call):
                     continue
                 h = nz._helper_target(prog, fn, call, {})
-                if h is None or h is fn.node or h.name in nz.ANCHOR_NAMES or nz._simple_helper(h) == "expr" \
+                if h is None or h is fn.node or h.name in nz.ANCHOR_NAMES or h.name in exclude \
+                        or nz._simple_helper(h) == "expr" \
                         or isinstance(h, ast.AsyncFunctionDef) != awaited or not all(
                             isinstance(d, ast.Name) and d.id in ("staticmethod", "override") for d in h.decorator_list):
                     continue
@@ -566,5 +568,151 @@ def analysis_view(prog: Program, fn: FuncInfo) -> FuncInfo:
     per = _VIEWS.setdefault(prog, {})
     key = (fn.qual, id(fn.node))
     if key not in per:
-        per[key] = normalize(prog, splice_tail_helpers(prog, fn)[0], diamonds=False)
+        keep = anchors(prog).names      # functions that play an anchored role are analysed on their own
+        per[key] = normalize(prog, splice_tail_helpers(prog, fn, exclude=keep)[0], diamonds=False,
+                             exclude_helpers=keep)
     return per[key]
+
+
+# ------------------------------------------------------------------ anchors bound by role
+BM_Q = "microgrid._power_distributing._component_managers._battery_manager:BatteryManager"
+PV_Q = ("microgrid._power_distributing._component_managers._pv_inverter_manager."
+        "_pv_inverter_manager:PVManager")
+BDA_Q = ("microgrid._power_distributing._distribution_algorithm._battery_distribution_algorithm:"
+         "BatteryDistributionAlgorithm")
+
+
+def _self_callers(cls: ClassInfo, name: str) -> list[FuncInfo]:
+    return [m for m in cls.methods.values() if m.name != name and name in self_calls(m.node)]
+
+
+def _has_attr_call(m: FuncInfo, attr: str, no_args: bool = False) -> bool:
+    return any(isinstance(c, ast.Call) and isinstance(c.func, ast.Attribute) and c.func.attr == attr
+               and (not no_args or (not c.args and not c.keywords)) for c in ast.walk(m.node))
+
+
+def _ann_params(m: FuncInfo, pred: Callable[[str], bool]) -> list[str]:
+    a = m.node.args
+    return [x.arg for x in a.posonlyargs + a.args + a.kwonlyargs if x.annotation is not None and pred(u(x.annotation))]
+
+
+class Anchors:
+    """The private functions the C01 / C15 rules anchor on, found by the ROLE they play; the
+    historical name is only tried first as a hint.  A role nobody plays is None (the rule that needs it
+    fails closed); a role with several candidates is None as well.
+
+        bm.parse   reads `task.result()` of the set_power tasks          (_parse_result)
+        bm.send    calls bm.parse / issues `set_power`                    (_set_distributed_power)
+        bm.dist    calls bm.send and builds the results                   (BatteryManager._distribute_power)
+        bm.gpd     calls `self._distribution_algorithm.distribute_power`  (_get_power_distribution)
+        bm.gd      calls bm.gpd                                           (_get_distribution)
+        pv.api     issues `set_power` in the PV manager                   (_set_api_power)
+        bda.core   the allocation routine building `_Power` cells         (BDA._distribute_power)
+        bda.consume / bda.supply   callers of bda.core passing the request as is / negated
+        bda.greedy / bda.split     callees of bda.core taking the `_Power` cells with / without a float
+        bda.bounds the callee of consume/supply with a boolean selector   (_inclusion_exclusion_bounds)
+    """
+
+    def __init__(self, prog: Program) -> None:
+        self.roles: dict[str, FuncInfo | None] = {}
+        bm, pv, bda = prog.cls(BM_Q), prog.cls(PV_Q), prog.cls(BDA_Q)
+
+        def pick(role: str, cls: ClassInfo, hint: str, finder: Callable[[], list[FuncInfo]]) -> FuncInfo | None:
+            got = cls.methods.get(hint)
+            if got is None:
+                cands = finder()
+                got = cands[0] if len(cands) == 1 else None
+            self.roles[role] = got
+            return got
+
+        parse = pick("bm.parse", bm, "_parse_result", lambda: [
+            m for m in bm.methods.values() if _has_attr_call(m, "result", True) and not _has_attr_call(m, "set_power")])
+        send = pick("bm.send", bm, "_set_distributed_power", lambda: (
+            _self_callers(bm, parse.name) if parse is not None else
+            [m for m in bm.methods.values() if _has_attr_call(m, "set_power")]))
+        pick("bm.dist", bm, "_distribute_power", lambda: _self_callers(bm, send.name) if send is not None else [])
+        gpd = pick("bm.gpd", bm, "_get_power_distribution", lambda: [
+            m for m in bm.methods.values() if any(
+                isinstance(c, ast.Call) and method_call(c, "self._distribution_algorithm", "distribute_power")
+                for c in ast.walk(m.node))])
+        pick("bm.gd", bm, "_get_distribution", lambda: _self_callers(bm, gpd.name) if gpd is not None else [])
+        pick("pv.api", pv, "_set_api_power", lambda: [m for m in pv.methods.values() if _has_attr_call(m, "set_power")])
+        core = pick("bda.core", bda, "_distribute_power", lambda: [
+            m for m in bda.methods.values() if any(isinstance(c, ast.Call) and u(c.func) == "_Power" for c in ast.walk(m.node))])
+        public = bda.methods.get("distribute_power")
+        self.roles["bda.public"] = public
+
+        def sided(negated: bool) -> list[FuncInfo]:
+            """Callers of the core routine: the supply side passes the request negated and/or selects the
+            bounds with a constant True; the consume side is the other one."""
+            if core is None:
+                return []
+            cands = [m for m in _self_callers(bda, core.name) if public is None or m is not public]
+
+            def supply_evidence(m: FuncInfo) -> bool:
+                fl = _ann_params(m, lambda t: t == "float")
+                for c in ast.walk(m.node):
+                    if not isinstance(c, ast.Call):
+                        continue
+                    vals = list(c.args) + [k.value for k in c.keywords]
+                    if method_call(c, "self", core.name) and len(fl) == 1 \
+                            and -Poly.atom(fl[0]) in [TermEval().ev(a) for a in vals]:
+                        return True
+                    if isinstance(c.func, ast.Attribute) and u(c.func.value) in ("self", "cls") \
+                            and any(isinstance(a, ast.Constant) and a.value is True for a in vals):
+                        callee = bda.methods.get(c.func.attr)
+                        if callee is not None and _ann_params(callee, lambda t: t == "bool"):
+                            return True
+                return False
+
+            sup = [m for m in cands if supply_evidence(m)]
+            if len(cands) != 2 or len(sup) != 1:
+                return []
+            return sup if negated else [m for m in cands if m is not sup[0]]
+
+        consume = pick("bda.consume", bda, "_distribute_consume_power", lambda: sided(False))
+        supply = pick("bda.supply", bda, "_distribute_supply_power", lambda: sided(True))
+
+        def core_callees(with_float: bool) -> list[FuncInfo]:
+            if core is None:
+                return []
+            names = set(self_calls(core.node))
+            return [m for m in bda.methods.values() if m.name in names and m is not core
+                    and _ann_params(m, lambda t: "_Power" in t)
+                    and bool(_ann_params(m, lambda t: t == "float")) == with_float]
+
+        pick("bda.greedy", bda, "_greedy_distribute_remaining_power", lambda: core_callees(True))
+        pick("bda.split", bda, "_distribute_multi_inverter_pairs", lambda: core_callees(False))
+
+        def bounds_fn() -> list[FuncInfo]:
+            names: set[str] = set()
+            for m in (consume, supply):
+                if m is not None:
+                    names |= set(self_calls(m.node))
+            return [m for m in bda.methods.values() if m.name in names and _ann_params(m, lambda t: t == "bool")]
+
+        pick("bda.bounds", bda, "_inclusion_exclusion_bounds", bounds_fn)
+        self.names = frozenset(m.name for m in self.roles.values() if m is not None and m.name.startswith("_"))
+
+    def get(self, role: str) -> FuncInfo:
+        m = self.roles.get(role)
+        if m is None:
+            raise AnalysisError(f"no function plays the role `{role}` (see _c15_util.Anchors) any more")
+        return m
+
+    def name(self, role: str) -> str:
+        return self.get(role).name
+
+
+_ANCHORS: "Any" = None
+
+
+def anchors(prog: Program) -> Anchors:
+    import weakref
+
+    global _ANCHORS
+    if _ANCHORS is None:
+        _ANCHORS = weakref.WeakKeyDictionary()
+    if prog not in _ANCHORS:
+        _ANCHORS[prog] = Anchors(prog)
+    return _ANCHORS[prog]
